@@ -145,11 +145,12 @@ def c08_jobs(tier):
 C08_LABELS = {"target_never_called_by_constructor", "rejected_only_if_invalid", "accepted_only_if_valid", "normalised_shapes",
               "normalised_order", "x0_strictly_inside", "hard_bounds_kept",
               # integer spelling of the bound vectors: the transformer built from them is the one of the float spelling (H-VT)
-              "plausible_bounds_map_to_unit", "internal_box_contains_unit_box", "log_iff_positive_decade"}
+              "plausible_bounds_map_to_unit", "internal_box_contains_unit_box", "log_iff_positive_decade", "ctor_accepts_valid_bounds"}
 
 PROPS["C08"] = dict(
     jobs=lambda tier: c08_jobs(tier) + [j for j in vt_jobs("quick") if j["params"].get("dtype") == "int" or
-                                        j["params"].get("kinds") in (["inf", "fin"], [["conc", 1e-3, 1e-2, 1.0, 10.0], ["conc", -float("inf"), -2.0, 3.0, float("inf")]])],
+                                        j["params"].get("kinds") in (["inf", "fin"], [["conc", 1e-3, 1e-2, 1.0, 10.0], ["conc", -float("inf"), -2.0, 3.0, float("inf")]])] +
+    [J("h_vt:HVT", D=1, nonlinear=False, points=False), J("h_vt:HVT", D=1, nonlinear=True, points=False)],   # second ordering check accepts every normalised definition
     labels=C08_LABELS, exc_is_violation=True,
     required=["rejected_only_if_invalid", "accepted_only_if_valid", "normalised_order", "x0_strictly_inside",
               "target_never_called_by_constructor"],
@@ -351,6 +352,8 @@ def sb_jobs(tier, cons=False):
     for user in ({}, {"uncertainty_handling": True}, {"uncertainty_handling": False}, {"specify_target_noise": True},
                  {"specify_target_noise": True, "uncertainty_handling": True}, {"specify_target_noise": False, "uncertainty_handling": True}):
         jobs.append(J("h_sb:HSInit", D=1, geom=["affine"], cons="bool" if cons else None, nonlinear=True, user=user))
+    for user in ({"poll_mesh_multiplier": 1.5}, {"poll_mesh_multiplier": 3.0}, {"tol_mesh": 2.0 ** -12}, {"tol_mesh": 3e-5}):   # other mesh ladders / tolerances
+        jobs.append(J("h_sb:HSInit", D=1, geom=["affine"], cons="bool" if cons else None, nonlinear=True, user=user))
     for g in names:
         jobs.append(J("h_sb:HSInit", D=1, geom=[g], cons="bool" if cons else None, nonlinear=True))
     for pair in (("log", "unbounded"), ("offgrid2", "offgrid2"), ("tight", "logtight"), ("affine", "log")):
@@ -468,8 +471,8 @@ C03_IM = {"func_count_is_number_of_target_calls", "reserve_is_min_of_setting_and
 C03_TAIL = {"exactly_the_reserved_final_samples", "result_func_count_is_logger_count"}
 _c03 = PROPS["C03"]
 _c03_jobs0 = _c03["jobs"]
-_c03["jobs"] = lambda tier: _c03_jobs0(tier) + im_jobs(tier) + tail_jobs(tier)
-_c03["labels"] = _c03["labels"] | C03_IM | C03_TAIL
+_c03["jobs"] = lambda tier: _c03_jobs0(tier) + im_jobs(tier) + tail_jobs(tier) + [j for j in sb_jobs("quick") if "HSInit" in j["harness"]]
+_c03["labels"] = _c03["labels"] | C03_IM | C03_TAIL | {"tol_mesh_snapped_to_mesh_ladder"}
 _c03["required"] = sorted(set(_c03["required"]) | {"exactly_the_reserved_final_samples", "budget_plus_reserve_is_original_budget"})
 
 C04_IM = {"incumbent_value_is_minimum_of_log", "incumbent_is_logged_pair", "u_best_is_u", "fval_is_yval", "deterministic_fsd_zero"}
@@ -664,12 +667,15 @@ def rf_jobs(tier):
             jobs.append(J("h_rf:HRobust", N=6, D=2, noise=noise, max_fail=2, symY=True))
         jobs.append(J("h_rf:HUpdate", noise=noise))
     jobs.append(J("h_rf:HInitRetry", max_fail=6))
+    # the prior resampling used by every retry: each hyper-parameter's prior may be unset (None), Gaussian or of another family
+    for kinds in (["gauss", "gauss", "gauss", "gauss"], ["gauss", "none", "gauss", "gauss"], ["none", "none", "none", "none"], ["gauss", "other", "none", "gauss"]):
+        jobs.append(J("h_rf:HPriors", kinds=kinds))
     return jobs
 
 
 C16_LABELS = {"linalg_failures_do_not_abort", "attempt_arguments_row_consistent", "attempt_rows_are_training_rows", "noise_column_kept_iff_noise",
               "retries_until_success", "success_flag_reports_failures", "exit_flag_reports_failed_update", "returned_gp_keeps_its_training_set", "failed_update_restores_previous_model",
-              "training_set_is_logged_data"}
+              "training_set_is_logged_data", "resampled_vector_has_one_entry_per_hyperparameter", "hyperparameters_without_gaussian_prior_kept"}
 PROPS["C16"] = dict(
     jobs=rf_jobs, labels=C16_LABELS, required=sorted(C16_LABELS), exc_is_violation=True,
     bounds=dict(quick="robust refit: every schedule of up to 4 consecutive LinAlgErrors (one fresh Bool per attempt), 10-12 concrete training rows with and without a noise column, and 5 rows with symbolic values (drop decisions symbolic) for 2 failures; initial-training retry loop (AST cut): up to 6 failures; posterior update fallback of local_gp_fitting; option use_slice_sampler with a sampler stub enforcing gpyreg's constructor checks, a symbolic noise hyper-parameter and symbolic noise bounds (2 failures) and 6 concrete failures; the GP stub enforces gpyreg's posterior contract (noise vector and training set of equal length, probed on the installed gpyreg) and a posterior computation may fail like a fit",
@@ -718,16 +724,18 @@ PROPS["C20"] = dict(
 
 # ------------------------------------------------------------------------------------------------ C07 (narrow)
 C07_LABELS = {"seed_recorded", "seeded_before_first_draw", "reseeded_before_first_draw", "reseeded_before_first_target_call", "seeded_x0_draw_independent_of_prior_rng_state",
-              "rng_used_only_when_x0_missing", "defaults_independent_of_process_history", "user_instance_independent_of_process_history"}
+              "rng_used_only_when_x0_missing", "defaults_independent_of_process_history", "user_instance_independent_of_process_history",
+              "sobol_seed_is_a_function_of_the_start_point", "no_process_dependent_source_in_seed", "no_global_rng_draw_for_a_finite_start_point"}
 PROPS["C07"] = dict(
     jobs=lambda tier: [J("h_bc:HBC", D=D, pat=_pat(D, x0=x0), spell={}, nonlinear=False, seed="sym", twice=True) for D in ((1, 2) if tier == "thorough" else (1,)) for x0 in (None, ["s"] * D, ["nan"] * D)] +
     [J("h_bc:HBC", D=2, pat=_pat(2, x0=None, lb=["-inf", "-inf"], ub=["+inf", "+inf"]), spell={}, nonlinear=False, seed="sym", twice=True)] +
     [j for j in im_jobs(tier) if j["params"].get("seed")] + pm_jobs("quick")[:4] + es_jobs("quick", cons=(None,))[:1] +
-    [j for j in ps_jobs("quick", levels=(0,), D2=False)][:2] + [j for j in opt_jobs(tier) if j["harness"] == "h_opt:HOPT" and j["params"].get("name")],
+    [j for j in ps_jobs("quick", levels=(0,), D2=False)][:2] + [j for j in opt_jobs(tier) if j["harness"] == "h_opt:HOPT" and j["params"].get("name")] +
+    [J("h_bc:HSobolSeed", D=D, scale=sc) for D in (1, 2, 3, 7, 8, 12) for sc in (1.0, 1e6)],
     labels=C07_LABELS, required=sorted(C07_LABELS),
     bounds=dict(quick="seeding protocol: constructor with a symbolic seed in [0,2] (x0 given / absent / NaN, D<=2): the seed is installed before the first draw and recorded; 2-safety: the constructor executed twice from two different prior generator states (draws are variables named by (state, index)) yields the same starting point; _init_optimization_ re-seeds before its first draw; randomness discipline: in every harness the only randomness API available to pybads code is the stubbed global NumPy generator (any other API aborts the path and the check ends inconclusive)",
                 thorough="same"),
-    outside=["bit-for-bit equality of whole runs", "everything inside gpyreg / SciPy (GP training starts, Sobol sequence)", "thread / BLAS nondeterminism", "the seed arithmetic of init_sobol (string manipulation)",
+    outside=["bit-for-bit equality of whole runs", "everything inside gpyreg / SciPy (GP training starts, Sobol sequence)", "thread / BLAS nondeterminism", "the seed arithmetic of init_sobol for symbolic starting points (string / uint64 manipulation; 12 concrete points are run)",
              "histories longer than two earlier instances; histories that run optimize() between the constructions"],
     level_text="Narrow claim: the seeding protocol and the randomness discipline of pybads' own Python are decided symbolically; reproducibility of whole runs is not claimed.",
     time_limit=dict(quick=600, thorough=1800))
